@@ -39,6 +39,8 @@ def specStep (s : Spec) : Ev → Option Spec
   | .down k => s.move k .up .down
   | .connClosed k => s.move k .down .connClosed
   | .shutdownWr k => if s.phases[k]? = some .up ∨ s.phases[k]? = some .down then some s else none
+  -- inside the callback that reports connection `k` (UP or DOWN), `connection()` is that connection
+  | .query k seen => if seen = some k ∧ (s.phases[k]? = some .up ∨ s.phases[k]? = some .down) then some s else none
   | .retryScheduled i ms _ =>
     if i = s.nretry ∧ ms = specDelay i ∧ s.stopped = false ∧ s.gone = false then some { s with nretry := s.nretry + 1 } else none
   | .abort _ => none
